@@ -37,6 +37,9 @@
 (*                _Get -> only the caller's frames are drained.            *)
 (*  Die(c)        c's state turns Closed by itself.                        *)
 (*  CloseExt      the owner calls pool.Close().                            *)
+(*  Reopen        the owner calls pool.Open() on the closed pool (as       *)
+(*                ResurrectorSink.Open() does after its Close()): task     *)
+(*                OPEN runs _OpenImpl.                                     *)
 (*                                                                         *)
 (* Quirks modelled as they are: Close() neither clears _cache nor          *)
 (* _waiters nor touches _current_size; _Release on a closed pool only      *)
@@ -86,7 +89,7 @@ FailWaiter(s, w) ==
 
 \* Close(): state, _FlushCache (cache not cleared), fail every entry of _waiters (not cleared)
 CloseSeg(s) ==
-  LET s1 == Emit([s EXCEPT !.pstate = "closed"], [e |-> "PState", pst |-> "closed"])
+  LET s1 == Emit([s EXCEPT !.pstate = "closed", !.wasClosed = TRUE], [e |-> "PState", pst |-> "closed"])
       s2 == FoldLeft(LAMBDA acc, c : Discard(acc, c), s1, s1.cache)
   IN FoldLeft(LAMBDA acc, w : FailWaiter(acc, w), s2, s2.waiters)
 
@@ -173,6 +176,22 @@ OpenSeg(s) ==
                       [e |-> "Create", c |-> c, r |-> 0]), [e |-> "Opened", c |-> c, ok |-> 1])
   IN [ReleaseSeg(s1, c) EXCEPT !.pstate = "open"]
 
+\* pool.Open() on a pool that was closed (ResurrectorSink.Close()/Open() keep the pool object):
+\* _OpenImpl = _Get (closed cached sinks are swept out; a sink is created while size < max, its
+\* open completes at once here; else a queuing/failing sink whose release is a no-op), _Release
+\* (the state is still Closed: only size - 1, the fresh sink is neither cached nor closed), state Open
+ReopenSeg(s0) ==
+  LET d == Dequeue(s0)
+      s == d.s
+      s2 == IF d.c # 0 THEN ReleaseSeg(s, d.c)
+            ELSE IF s.size < s.max
+            THEN LET c == s.nextc
+                     s1 == Emit(Emit([s EXCEPT !.size = @ + 1, !.nextc = @ + 1, !.cst[c] = "open"],
+                                     [e |-> "Create", c |-> c, r |-> 0]), [e |-> "Opened", c |-> c, ok |-> 1])
+                 IN ReleaseSeg(s1, c)
+            ELSE s
+  IN [s2 EXCEPT !.pstate = "open"]
+
 \* ---- the machine ----------------------------------------------------------------------
 RunEvs(a, v, evs) ==
   FoldLeft(LAMBDA acc, e : IF acc.v # "ok" THEN acc
@@ -185,7 +204,8 @@ Init0(mn, mx, ql) ==
   [min |-> mn, max |-> mx, qlen |-> ql, size |-> 0, cache |-> <<>>, waiters |-> <<>>, pstate |-> "idle",
    cst |-> [c \in CAll |-> "none"], infl |-> [c \in CAll |-> {}],
    ph |-> [r \in RAll |-> "none"], rc |-> [r \in RAll |-> 0], stk |-> [r \in RAll |-> Empty],
-   runq |-> <<>>, nextc |-> 1, nextr |-> 1, leaked |-> {}, ndie |-> 0, ntmo |-> 0, evs |-> <<>>]
+   runq |-> <<>>, nextc |-> 1, nextr |-> 1, leaked |-> {}, ndie |-> 0, ntmo |-> 0, wasClosed |-> FALSE,
+   nopen |-> 0, evs |-> <<>>]
 
 Init ==
   \E mn \in MinS, mx \in MaxS, ql \in QS :
@@ -208,6 +228,7 @@ RunTask(imm) ==
      IN CASE t[1] = "ARR" -> LET s == ArrSeg(s0, t[2], imm) IN s.nextc <= NConn + 1 /\ Apply(s)
           [] t[1] = "RES" -> ~imm /\ Apply(ResSeg(s0, t[2]))
           [] t[1] = "PQ" -> ~imm /\ Apply(PQSeg(s0, t[2]))
+          [] t[1] = "OPEN" -> LET s == ReopenSeg(s0) IN imm /\ s.nextc <= NConn + 1 /\ Apply(s)
 
 OpenDone(c, ok) ==
   /\ st.cst[c] = "opening"
@@ -231,8 +252,14 @@ Die(c) ==
   /\ Apply(Emit([st EXCEPT !.cst[c] = "dead", !.ndie = @ + 1], [e |-> "Die", c |-> c]))
 
 CloseExt ==
-  /\ ExtClose /\ st.pstate = "open"
+  /\ ExtClose /\ st.pstate = "open" /\ ~st.wasClosed
   /\ Apply(CloseSeg(Emit(st, [e |-> "PoolClose"])))
+
+\* the owner opens the closed pool again: Open() spawns _OpenImpl (SafeLink)
+Reopen ==
+  /\ ExtClose /\ st.pstate = "closed" /\ st.nopen < 1
+  /\ \A i \in DOMAIN st.runq : st.runq[i][1] # "OPEN"
+  /\ Apply(Emit([st EXCEPT !.runq = Append(@, <<"OPEN", 0>>), !.nopen = @ + 1], [e |-> "PoolOpen"]))
 
 Next == \/ SpawnArr
         \/ \E imm \in BOOLEAN : RunTask(imm)
@@ -241,6 +268,7 @@ Next == \/ SpawnArr
         \/ \E r \in 1..NReq : Timeout(r)
         \/ \E c \in 1..NConn : Die(c)
         \/ CloseExt
+        \/ Reopen
 
 Spec == Init /\ [][Next]_vars
 
@@ -265,12 +293,12 @@ ProbeOK == (Stopped /\ viol = "ok" /\ st.pstate # "closed")
 
 \* structural invariants of the (repaired) code
 SizeAccounting ==   \* _current_size = sinks lent + parked in Open + in the hands of a spawned _ProcessQueue + cached
-  st.pstate # "closed" =>
+                    \* (also while closed and after a re-open: closed sinks stay cached until _Dequeue sweeps them)
     st.size = Cardinality({r \in RAll : st.ph[r] = "opening"})
               + Cardinality({r \in RAll : st.stk[r].frame = "C"})
               + Cardinality({i \in DOMAIN st.runq : st.runq[i][1] = "PQ"})
               + Len(st.cache)
-CacheXorWaiters == st.pstate # "closed" => (st.cache = <<>> \/ st.waiters = <<>>)
+CacheXorWaiters == ~st.wasClosed => (st.cache = <<>> \/ st.waiters = <<>>)
 NothingLeaked == st.leaked = {}
 SizeBound == st.size <= st.max /\ st.size >= 0
 =============================================================================
